@@ -19,6 +19,9 @@ structure CompleteRN (g : Grammar) (t : Table) : Prop where
       Action.accept ∈ t.cell s 0
   shiftDet : ∀ s a s1 s2, Action.shift s1 ∈ t.cell s a → Action.shift s2 ∈ t.cell s a → s1 = s2
   start : t.hasItemLA 0 0 0 0
+  /-- a symbol occurring in a right-hand side is not the left-hand side of an augmented production -/
+  rhs_not_aug : ∀ (p q : Nat) (pr qr : Prod), g.prods[p]? = some pr → g.prods[q]? = some qr → qr.lhs ∈ pr.rhs →
+    g.isAug q = false
 
 theorem filter_isShift_two {l : List Action} {s1 s2 : Nat} (h1 : Action.shift s1 ∈ l) (h2 : Action.shift s2 ∈ l)
     (hlen : (l.filter isShift).length ≤ 1) : s1 = s2 := by
@@ -36,7 +39,7 @@ theorem Cert.completeRN_sound (g : Grammar) (t : Table) (h : Cert.completeRN g t
     CompleteRN g t ∧ GWF g := by
   unfold Cert.completeRN at h
   simp only [Bool.and_eq_true] at h
-  obtain ⟨⟨⟨⟨⟨hF, hC⟩, hT⟩, hR⟩, hG⟩, hD⟩ := h
+  obtain ⟨⟨⟨⟨⟨⟨hF, hC⟩, hT⟩, hR⟩, hG⟩, hD⟩, hL⟩ := h
   unfold Cert.grammarOk at hG
   simp only [Bool.and_eq_true] at hG
   obtain ⟨⟨⟨hG1, hG2⟩, hG3⟩, hG4⟩ := hG
@@ -72,7 +75,7 @@ theorem Cert.completeRN_sound (g : Grammar) (t : Table) (h : Cert.completeRN g t
       rcases this with h0 | h0
       · exact h0
       · exact absurd hlhs h0
-  refine ⟨⟨?_, ?_, ?_, ?_, ?_, ?_⟩, gwf⟩
+  refine ⟨⟨?_, ?_, ?_, ?_, ?_, ?_, ?_⟩, gwf⟩
   · -- closure
     intro s p d a pr B ⟨st, hst, it, hit, hp, hd, ha⟩ hpr hB hBnt q qr hq hlhs b hf
     have := forStates_spec hC hst
@@ -158,6 +161,27 @@ theorem Cert.completeRN_sound (g : Grammar) (t : Table) (h : Cert.completeRN g t
     · rename_i st hst
       exact hasItemLAB_spec hst hG4
     · simp at hG4
+  · -- rhs_not_aug
+    intro p q pr qr hp hq hmem
+    unfold Grammar.isAug
+    rw [hq]
+    simp only [Bool.or_eq_false_iff, beq_eq_false_iff_ne, ne_eq]
+    constructor
+    · intro heq
+      exact (hprod p pr hp).2 (by rw [← heq]; exact hmem)
+    · unfold Cert.auglOk at hL
+      cases hx : g.auglIdx with
+      | none => simp
+      | some x =>
+        rw [hx] at hL
+        simp only [List.all_eq_true, Bool.not_eq_true'] at hL
+        intro heq
+        injection heq with heq
+        have hm : pr ∈ g.prods.toList := by
+          rw [Array.mem_toList_iff]; exact Array.mem_of_getElem? hp
+        have := hL pr hm
+        have hc : pr.rhs.contains x = true := List.contains_iff_mem.mpr (by rw [← heq]; exact hmem)
+        rw [this] at hc; simp at hc
 
 /-- transitions of a certified table are functions -/
 theorem CompleteRN.trans_det {g : Grammar} {t : Table} (hc : CompleteRN g t) {s X s1 s2 : Nat}
